@@ -120,8 +120,8 @@ def check_views(ctx, cfg, rule="C02.V"):
         n = self_len(a)
         rets = a.returns
         good = bool(rets) and n is not None and all(is_full_view(r["val"], ("arg", 1), n) for r in rets)
-        # the view must be built without consulting anything but self: no payload calls other than from_raw_parts
-        extra = [c.fn for c in payload_calls(a) if c.fn not in ("core::slice::from_raw_parts", "core::slice::from_raw_parts_mut")]
+        # the view must be built without consulting anything but self: no effectful call (pointer/slice constructors are pure)
+        extra = [c.fn for c in payload_calls(a) if not a.is_pure(c) and not getattr(c, "no_effects", False)]
         st = PROVED if good and not extra else REFUTED
         ctx.ob(rule, key, st, "returns %s; expected ptr(self + 0 bytes, len %r)%s" % (
             ", ".join(vstr(r["val"]) for r in rets), n, "; unexpected calls " + ",".join(extra) if extra else ""), at=b["at"], cfg=cfg)
